@@ -374,6 +374,11 @@ func shapeRef(name string, in int64) (int64, int64) {
 				return v, 0
 			}
 		}
+	case "ShapeSkip":
+		if in == 0 {
+			return -600, 0
+		}
+		return in + 6, 0
 	case "ShapeLEA":
 		return in + 5, 0
 	case "ShapeCMPM":
